@@ -896,6 +896,9 @@ def replay_counterexample(c, ob_rec, _alt=False):
         except Exception as e:
             return {'status': 'no-input', 'note': 'custom replay failed: %s' % e, 'trace': traceback.format_exc(),
                     'inputs': jsonable(inputs)}
+    if c.block is not None:
+        return {'status': 'no-input', 'inputs': jsonable(inputs),
+                'note': 'block contract without its own replay: counter-model reported without a real run'}
     if c.setup is not None and not c.harness:
         return {'status': 'no-input', 'inputs': jsonable(inputs),
                 'note': 'contract stubs externals and defines no replay harness: counter-model reported without a real run'}
